@@ -445,7 +445,12 @@ class FakeRepo:
             if not self.remote:
                 return (128, b"", b"fatal: no remote\n")
             self.fetch_count += 1
-            self._receive_remote_tags()
+            where = [a for a in argv[2:] if not a.startswith("-")]
+            if not where or where[0] == "origin":
+                self._receive_remote_tags()
+            else:
+                # `git fetch <url>`: no configured refspec applies, only FETCH_HEAD is written and tags are not followed
+                return (0, b"", b"")
             if self.moved_remote_tags and ("--tags" in argv or "-t" in argv) and "--force" not in argv and "-f" not in argv:
                 # since git 2.20 a fetch that asks for all tags refuses to move a tag that exists locally
                 t = self.moved_remote_tags[0]
